@@ -6,7 +6,7 @@ namespace Humphrey.Driver.C09
 open Humphrey Humphrey.Driver Humphrey.Driver.HttpD Humphrey.Http Humphrey.IO
 
 /-- the proxy's time budget in the harness (ms) -/
-def timeoutMs : Nat := 300
+def timeoutMs : Nat := 500
 
 /-- Script → what reaches the proxy before its deadline. -/
 def interpret (steps : List String) : Option Upstream :=
